@@ -1,6 +1,7 @@
 package c01
 
 import (
+	"bytes"
 	"encoding/binary"
 	"encoding/json"
 	"errors"
@@ -349,9 +350,14 @@ func (s *streamSession) exchange(in *input, wantAnswer bool) (o observation) {
 			wait = s.e.answerWait * 6 / 10
 		}
 
-		if s.dc != nil {
+		switch {
+		case s.dc != nil:
 			o.res = s.dc.Exchange(in.wire, wait)
-		} else {
+		case s.p.split:
+			pieces, kind := splitFrame(in)
+			s.e.r.Bucket("split:"+kind+":"+s.p.name, 1)
+			o.res = s.c.ExchangePieces(pieces, splitPause, wait)
+		default:
 			o.res = s.c.Exchange(in.wire, wait)
 		}
 
@@ -381,6 +387,30 @@ func (s *streamSession) exchange(in *input, wantAnswer bool) (o observation) {
 		}
 
 		return o
+	}
+}
+
+// splitPause separates the pieces of a split frame in time, so that a server
+// blocked in a read gets the first piece alone.
+const splitPause = 8 * time.Millisecond
+
+// splitFrame cuts the framed query at a boundary chosen by the position of the
+// input in its list: after the first octet of the length prefix, after the
+// prefix, in the middle of the DNS header, one byte before the end, or at all
+// of them.
+func splitFrame(in *input) (pieces [][]byte, kind string) {
+	framed := tbench.Frame(in.wire)
+	switch in.idx % 5 {
+	case 0:
+		return tbench.SplitAt(framed, 1), "after-first-prefix-octet"
+	case 1:
+		return tbench.SplitAt(framed, 2), "after-prefix"
+	case 2:
+		return tbench.SplitAt(framed, 8), "mid-header"
+	case 3:
+		return tbench.SplitAt(framed, len(framed)-1), "before-last-byte"
+	default:
+		return tbench.SplitAt(framed, 1, 2, 8, len(framed)-1), "after-first-prefix-octet+all"
 	}
 }
 
@@ -541,7 +571,15 @@ func (s *dohSession) exchange(in *input, _ bool) (o observation) {
 			o.res = s.c.PostUnsized(in.wire, pieces, s.e.answerWait)
 		case s.p.framing == "raw-chunked":
 			req := tbench.ChunkedPOST(s.e.b.PKI.ServerName, "/dns-query", tbench.SplitPieces(in.wire, pieces))
-			o.res = s.e.b.RawHTTP1(s.p.variant, req, s.e.answerWait)
+			if in.idx%3 == 2 {
+				// Also cut the request itself: inside the request line, behind
+				// the headers, and three bytes before the end.
+				cut := tbench.SplitAt(req, 10, bytes.Index(req, []byte("\r\n\r\n"))+4, len(req)-3)
+				s.e.r.Bucket("split:http-request:"+s.p.name, 1)
+				o.res = s.e.b.RawHTTP1Pieces(s.p.variant, cut, time.Millisecond, s.e.answerWait)
+			} else {
+				o.res = s.e.b.RawHTTP1(s.p.variant, req, s.e.answerWait)
+			}
 			if o.res.Outcome == tbench.Closed || o.res.Outcome == tbench.Timeout {
 				// No HTTP response at all on a fresh connection: treat like a
 				// transport failure and try again.
